@@ -1,4 +1,5 @@
 import Cx.Basic
+import Cx.Spec.Utf8
 /-
   Cx.Model.Fast — transliteration of coregex's special-purpose "fast path" searchers (core-only, executable).
 
@@ -18,6 +19,7 @@ import Cx.Basic
     means "unbounded" even when it came from `{0}`, Latin-1 runes 0x80–0xFF are used as *bytes*, … — it is the
     applicability predicates (`ExtractCharClassRanges`, `isValidCompositePart`, `DetectAnchoredLiteral`) that now keep
     such patterns away from them (non-greedy, `{…,0}`, last class rune above U+007F, `FoldCase` literal);
+    the BranchDispatcher (§5) was rewritten and has no such behaviour left: it is exact on everything it accepts;
   * `CompositeSearcher.matchLengths` (a write-only scratch slice) has no influence on any result and is not modelled.
 -/
 namespace Cx.Fast
@@ -34,8 +36,8 @@ abbrev Table := Array Bool
 def tableOfRanges (ranges : List (Nat × Nat)) : Table :=
   Array.ofFn (n := 256) fun i => ranges.any fun r => decide (r.1 ≤ i.val) && decide (i.val ≤ r.2)
 
-/-- same loop but with the "clamp `hi` to 255, skip `lo > 255`" treatment used by `buildCharClassTable`,
-    `buildBranchMatcher` and `ExtractFirstBytes`. (Equal to `tableOfRanges`: indices are `< 256` anyway.) -/
+/-- same loop but with the "clamp `hi` to 255, skip `lo > 255`" treatment used by `buildCharClassTable`
+    and `ExtractFirstBytes`. (Equal to `tableOfRanges`: indices are `< 256` anyway.) -/
 def tableOfRangesClamped (ranges : List (Nat × Nat)) : Table :=
   tableOfRanges ((ranges.filter fun r => decide (r.1 ≤ 255)).map fun r => (r.1, min r.2 255))
 
@@ -563,129 +565,243 @@ def extractFirstBytes (re : Re) : Option FirstByteSet :=
   | (true, res) => some res
   | (false, _) => none
 
-/-! ## §5 BranchDispatcher -/
+/-! ## §5 BranchDispatcher (nfa/branch_dispatch.go, the "exact on everything it accepts" rewrite)
 
-structure BranchMatcher where
-  literal : Bytes := #[]
-  charClass : Table := Array.replicate 256 false
-  minMatch : Nat := 0
-  hasCharClass : Bool := false
+  * `byteSet` (`[4]uint64`, a 256-bit set) is ONE natural number whose bit `b` says whether byte `b` is a member
+    (`ByteSet.bits`; word `b>>6`, bit `b&63` of the Go array is bit `b` of the number): `add` is `||| 1 <<< b`, `has` is
+    `testBit`, `intersects` is `&&& ≠ 0`.  (Not a `Table` as in §1–§4: the kernel evaluates these by GMP arithmetic, which
+    keeps the `decide` witnesses of Cx.Proofs.FastCex cheap.)
+  * `steps []byteSet` is a `List ByteSet` (Go appends at the end: `steps ++ [s]`).
+  * `m.add` mutates the receiver and returns a `bool`; on `false` every caller discards the matcher, so the model is
+    `Option BranchMatcher` (`none` = `false`).  Fuel = `maxFirstBytesDepth + 1 - depth` as in §4.
+  * `unicode.SimpleFold(r) != r` is the parameter `hasFold : Nat → Bool` ("the rune has a case variant").  The model
+    and the theorems are parametric in it; Cx.DriverFast instantiates it with a table generated from Go's `unicode`
+    package, the exactness theorem needs only that it is `true` on the ASCII letters (`FoldSound`, Cx.Spec.Fast).
+  * rune values are `Nat`, so the test `lo < 0` of `asciiClassSet` cannot fire; `tailMin` is never negative
+    (`minCount < 0` is rejected) and is a `Nat`; `tailMax` keeps Go's `-1 = unbounded` (any negative `Max` of a
+    hand-built `OpRepeat` behaves the same way in the Go code) and is an `Int`.
+  * the field `branches []*syntax.Regexp` is never read by `Search`/`IsMatch` and is not modelled. -/
+
+/-- `byteSet`; the zero value `var s byteSet` is `{}` -/
+structure ByteSet where
+  bits : Nat := 0
   deriving Repr
+
+namespace ByteSet
+/-- `s.add(b)`: `s[b>>6] |= 1 << (b & 63)` -/
+def add (s : ByteSet) (b : Nat) : ByteSet := ⟨s.bits ||| (1 <<< b)⟩
+/-- `s.has(b)`: `s[b>>6] & (1 << (b & 63)) != 0` -/
+def has (s : ByteSet) (b : Nat) : Bool := s.bits.testBit b
+/-- `s.intersects(&o)`: some word of `s & o` is non-zero -/
+def intersects (s o : ByteSet) : Bool := decide (s.bits &&& o.bits ≠ 0)
+/-- `for r := lo; r <= hi; r++ { s.add(byte(r)) }`, fuel `hi + 1 - r` -/
+def addRange (s : ByteSet) : Nat → Nat → ByteSet
+  | 0, _ => s
+  | k+1, r => addRange (s.add r) k (r + 1)
+end ByteSet
+
+/-- `var s byteSet; s.add(b)` -/
+def byteSetSingle (b : Nat) : ByteSet := ({} : ByteSet).add b
+
+/-- `const maxBranchSteps = 4096` -/
+def maxBranchSteps : Nat := 4096
+
+/-- `branchMatcher`: `steps[0] … steps[n-1] tail{tailMin,tailMax}` -/
+structure BranchMatcher where
+  steps : List ByteSet := []
+  hasTail : Bool := false
+  tail : ByteSet := {}
+  tailMin : Nat := 0
+  /-- `-1` (any negative value) = unbounded -/
+  tailMax : Int := 0
+  deriving Repr
+
+namespace BranchMatcher
+
+/-- `minLen` -/
+def minLen (m : BranchMatcher) : Nat := if m.hasTail then m.steps.length + m.tailMin else m.steps.length
+
+/-- `firstSet` -/
+def firstSet (m : BranchMatcher) : ByteSet :=
+  match m.steps with
+  | s :: _ => s
+  | [] => m.tail
+
+/-- `for i := range m.steps { if !m.steps[i].has(haystack[i]) { return -1, false } }` (second argument: `m.steps[i:]`) -/
+def stepsAt (h : Bytes) : List ByteSet → Nat → Bool
+  | [], _ => true
+  | s :: ss, i => if !s.has (h.at i) then false else stepsAt h ss (i + 1)
+
+/-- `for end < limit && m.tail.has(haystack[end]) { end++ }`, fuel `limit - end` -/
+def tailScan (t : ByteSet) (h : Bytes) : Nat → Nat → Nat
+  | 0, e => e
+  | k+1, e => if t.has (h.at e) then tailScan t h k (e + 1) else e
+
+/-- `match`: the end of the unique match of the branch at offset 0 (`none` = `(-1, false)`) -/
+def match_ (m : BranchMatcher) (h : Bytes) : Option Nat :=
+  let n := m.steps.length
+  if h.size < n then none else
+  if !stepsAt h m.steps 0 then none else
+  if !m.hasTail then some n else
+  let limit := if m.tailMax ≥ 0 ∧ (n : Int) + m.tailMax < (h.size : Int) then n + m.tailMax.toNat else h.size
+  let e := tailScan m.tail h (limit - n) n
+  if e - n < m.tailMin then none else some e
+
+/-- `addStep` -/
+def addStep (m : BranchMatcher) (s : ByteSet) : Option BranchMatcher :=
+  if m.hasTail ∨ m.steps.length ≥ maxBranchSteps then none else some { m with steps := m.steps ++ [s] }
+
+/-- `for _, b := range buf[:n] { var s byteSet; s.add(b); if !m.addStep(s) { return false } }` -/
+def addBytes (m : BranchMatcher) : List Nat → Option BranchMatcher
+  | [] => some m
+  | b :: bs =>
+    match m.addStep (byteSetSingle b) with
+    | none => none
+    | some m' => addBytes m' bs
+
+/-- the `OpLiteral` loop over `re.Rune` (`fold` = the `FoldCase` flag; `utf8.ValidRune` = `Utf8.isScalar`) -/
+def addLiteral (hasFold : Nat → Bool) (fold : Bool) (m : BranchMatcher) : List Nat → Option BranchMatcher
+  | [] => some m
+  | r :: rs =>
+    if fold && hasFold r then none else
+    if r = Utf8.runeError ∨ ¬ Utf8.isScalar r then none else
+    match m.addBytes (Utf8.encode r) with
+    | none => none
+    | some m' => addLiteral hasFold fold m' rs
+
+/-- `for i := 0; i < minCount; i++ { if !m.addStep(elem.steps[0]) { return false } }` -/
+def addStepN (m : BranchMatcher) (s : ByteSet) : Nat → Option BranchMatcher
+  | 0 => some m
+  | n+1 =>
+    match m.addStep s with
+    | none => none
+    | some m' => addStepN m' s n
+
+/-- `for _, sub := range re.Sub { if !m.add(sub, depth+1) { return false } }; return true` -/
+def addList (rec : BranchMatcher → Re → Option BranchMatcher) : List Re → BranchMatcher → Option BranchMatcher
+  | [], m => some m
+  | x :: xs, m =>
+    match rec m x with
+    | none => none
+    | some m' => addList rec xs m'
+
+end BranchMatcher
+
+/-- the loop of `asciiClassSet` over the `(lo, hi)` pairs (`lo < 0` cannot happen: runes are `Nat`) -/
+def asciiClassLoop (s : ByteSet) : List (Nat × Nat) → Option ByteSet
+  | [] => some s
+  | (lo, hi) :: rest => if hi > 0x7F ∨ lo > hi then none else asciiClassLoop (s.addRange (hi + 1 - lo) lo) rest
+
+/-- `asciiClassSet` (`none` = `ok == false`) -/
+def asciiClassSet (re : Re) : Option ByteSet :=
+  if re.rune.length = 0 ∨ re.rune.length % 2 ≠ 0 then none else asciiClassLoop {} (pairs re.rune)
+
+/-- `minCount, maxCount` of the four repetition operators -/
+def repBounds (re : Re) : Int × Int :=
+  match re.op with
+  | .plus => (1, -1)
+  | .quest => (0, 1)
+  | .repeat_ => (re.min, re.max)
+  | _ => (0, -1)
+
+/-- `(*branchMatcher).add(re, depth)`, fuel `maxFirstBytesDepth + 1 - depth` -/
+def BranchMatcher.add (hasFold : Nat → Bool) : Nat → BranchMatcher → Re → Option BranchMatcher
+  | 0, _, _ => none
+  | fuel+1, m, re =>
+    match re.op with
+    | .emptyMatch => some m
+    | .capture =>
+      match re.sub with
+      | [x] => BranchMatcher.add hasFold fuel m x
+      | _ => none
+    | .concat => BranchMatcher.addList (BranchMatcher.add hasFold fuel) re.sub m
+    | .literal => m.addLiteral hasFold re.foldCase re.rune
+    | .charClass =>
+      match asciiClassSet re with
+      | none => none
+      | some s => m.addStep s
+    | .plus | .star | .quest | .repeat_ =>
+      match re.sub with
+      | [x] =>
+        let minCount := (repBounds re).1
+        let maxCount := (repBounds re).2
+        if minCount < 0 ∨ (maxCount ≥ 0 ∧ maxCount < minCount) then none else
+        if maxCount = 0 then some m else
+        -- `var elem branchMatcher; elem.add(re.Sub[0], depth+1)`: exactly one single-byte step
+        match BranchMatcher.add hasFold fuel {} x with
+        | none => none
+        | some elem =>
+          match elem.hasTail, elem.steps with
+          | false, [s] =>
+            if minCount = maxCount then m.addStepN s minCount.toNat
+            else if re.nonGreedy ∨ m.hasTail then none
+            else some { m with hasTail := true, tail := s, tailMin := minCount.toNat, tailMax := maxCount }
+          | _, _ => none
+      | _ => none
+    | _ => none
+
+/-- `buildBranchMatcher` (`none` = `ok == false`) -/
+def buildBranchMatcher (hasFold : Nat → Bool) (re : Re) : Option BranchMatcher :=
+  match BranchMatcher.add hasFold 21 {} re with
+  | none => none
+  | some m => if m.minLen = 0 then none else some m
+
+/-- `unwrapCaptures`: `for re.Op == OpCapture && len(re.Sub) == 1 { re = re.Sub[0] }` -/
+def unwrapCaptures : Re → Re
+  | .mk .capture _ _ [x] _ _ _ => unwrapCaptures x
+  | re => re
 
 structure BranchDispatcher where
   /-- `[256]int8`, `-1` = no branch -/
   dispatch : Array Int
-  branchMatchers : Array BranchMatcher
-  canMatchEmpty : Bool
+  branchMatchers : List BranchMatcher
   deriving Repr
 
-/-- the literal loop of `buildBranchMatcher`: `none` = a rune `> 255` was met -/
-def literalBytes (runes : List Nat) : Option Bytes :=
-  if runes.any (· > 255) then none else some runes.toArray
-
-/-- `buildBranchMatcher` -/
-def buildBranchMatcher (re0 : Re) : BranchMatcher :=
-  let re := if re0.op = .capture then (match re0.sub with | [x] => x | _ => re0) else re0
-  match re.op with
-  | .literal =>
-    -- on a rune > 255 Go returns `m` with the zero-filled `make([]byte, len)` literal
-    match literalBytes re.rune with
-    | some b => { literal := b }
-    | none =>
-      let good := re.rune.takeWhile (· ≤ 255)
-      { literal := (good ++ List.replicate (re.rune.length - good.length) 0).toArray }
-  | .plus =>
-    match re.sub with
-    | [cc] => if cc.op = .charClass then
-                { charClass := tableOfRangesClamped (pairs cc.rune), hasCharClass := true, minMatch := 1 }
-              else {}
-    | _ => {}
-  | .star =>
-    match re.sub with
-    | [cc] => if cc.op = .charClass then
-                { charClass := tableOfRangesClamped (pairs cc.rune), hasCharClass := true, minMatch := 0 }
-              else {}
-    | _ => {}
-  | .concat =>
-    match re.sub with
-    | l :: _ => if l.op = .literal then
-                  match literalBytes l.rune with
-                  | some b => { literal := b }
-                  | none => {}
-                else {}
-    | [] => {}
-  | _ => {}
-
-/-- loop state of `NewBranchDispatcher` -/
+/-- loop state of `NewBranchDispatcher` (`branchMatchers[i] = m` on a pre-sized slice = append) -/
 structure BDState where
   dispatch : Array Int := Array.replicate 256 (-1)
-  matchers : Array BranchMatcher := #[]
-  canMatchEmpty : Bool := false
+  matchers : List BranchMatcher := []
+  seen : ByteSet := {}
 
-/-- `for b := 0; b < 256; b++ { if fb.bytes[b] { if dispatch[b] != -1 { return nil }; dispatch[b] = i } }` -/
-def claimBytes (fb : FirstByteSet) (i : Nat) : List Nat → Array Int → Option (Array Int)
-  | [], d => some d
-  | b :: bs, d =>
-    if fb.bytes.mem b then
-      if d.getD b (-1) ≠ -1 then none else claimBytes fb i bs (d.setIfInBounds b (i : Int))
-    else claimBytes fb i bs d
+/-- `for b := 0; b < 256; b++ { if first.has(byte(b)) { seen.add(byte(b)); dispatch[b] = int8(i) } }` -/
+def claimBytes (first : ByteSet) (i : Nat) : List Nat → ByteSet → Array Int → ByteSet × Array Int
+  | [], seen, d => (seen, d)
+  | b :: bs, seen, d =>
+    if first.has b then claimBytes first i bs (seen.add b) (d.setIfInBounds b (i : Int))
+    else claimBytes first i bs seen d
 
-def newBranchLoop : List Re → Nat → BDState → Option BDState
+/-- the `for i, branch := range branches` loop -/
+def newBranchLoop (hasFold : Nat → Bool) : List Re → Nat → BDState → Option BDState
   | [], _, st => some st
   | branch :: rest, i, st =>
-    match extractFirstBytes branch with
+    match buildBranchMatcher hasFold branch with
     | none => none
-    | some fb =>
-      if !fb.complete then none else
-      if fb.count = 0 then
-        newBranchLoop rest (i + 1) { st with canMatchEmpty := true, matchers := st.matchers.push {} }
-      else
-        match claimBytes fb i (List.range 256) st.dispatch with
-        | none => none
-        | some d =>
-          newBranchLoop rest (i + 1) { st with dispatch := d, matchers := st.matchers.push (buildBranchMatcher branch) }
+    | some m =>
+      if m.firstSet.intersects st.seen then none else
+      let (seen, d) := claimBytes m.firstSet i (List.range 256) st.seen st.dispatch
+      newBranchLoop hasFold rest (i + 1) { dispatch := d, matchers := st.matchers ++ [m], seen := seen }
 
-/-- `NewBranchDispatcher` -/
-def newBranchDispatcher (re : Re) : Option BranchDispatcher :=
-  let inner := if re.op = .capture then (match re.sub with | [x] => x | _ => re) else re
+/-- `NewBranchDispatcher` (`none` = `nil`) -/
+def newBranchDispatcher (hasFold : Nat → Bool) (re : Re) : Option BranchDispatcher :=
+  let inner := unwrapCaptures re
   if inner.op ≠ .alternate then none else
   let branches := inner.sub
   if branches.length < 2 ∨ branches.length > 127 then none else
-  (newBranchLoop branches 0 {}).map fun st =>
-    { dispatch := st.dispatch, branchMatchers := st.matchers, canMatchEmpty := st.canMatchEmpty }
+  (newBranchLoop hasFold branches 0 {}).map fun st => { dispatch := st.dispatch, branchMatchers := st.matchers }
 
 namespace BranchDispatcher
 
-/-- `for _, b := range haystack { if !charClass[b] { break }; count++ }`, fuel `n - i` -/
-def countPrefix (t : Table) (h : Bytes) : Nat → Nat → Nat
-  | 0, _ => 0
-  | k+1, i => if t.mem (h.at i) then countPrefix t h k (i+1) + 1 else 0
-
 /-- `Search` -/
 def search (d : BranchDispatcher) (h : Bytes) : Option (Nat × Nat) :=
-  if h.size = 0 then (if d.canMatchEmpty then some (0, 0) else none) else
+  if h.size = 0 then none else
   let idx := d.dispatch.getD (h.at 0) (-1)
   if idx < 0 then none else
-  let m := d.branchMatchers.getD idx.toNat {}
-  if m.literal.size > 0 then
-    if h.size < m.literal.size then none
-    else if bytesAt h 0 m.literal.toList then some (0, m.literal.size) else none
-  else if m.hasCharClass then
-    let cnt := countPrefix m.charClass h h.size 0
-    if cnt ≥ m.minMatch then some (0, cnt) else none
-  else some (0, 1)
+  match (d.branchMatchers.getD idx.toNat {}).match_ h with
+  | none => none
+  | some e => some (0, e)
 
-/-- `IsMatch` -/
-def isMatch (d : BranchDispatcher) (h : Bytes) : Bool :=
-  if h.size = 0 then d.canMatchEmpty else
-  let idx := d.dispatch.getD (h.at 0) (-1)
-  if idx < 0 then false else
-  let m := d.branchMatchers.getD idx.toNat {}
-  if m.literal.size > 0 then
-    if h.size < m.literal.size then false else bytesAt h 0 m.literal.toList
-  else if m.hasCharClass then
-    decide (countPrefix m.charClass h h.size 0 ≥ m.minMatch)
-  else true
+/-- `IsMatch`: `_, _, found := d.Search(haystack); return found` -/
+def isMatch (d : BranchDispatcher) (h : Bytes) : Bool := (d.search h).isSome
 
 /-- meta `findIndicesBranchDispatchAt` -/
 def searchAt (d : BranchDispatcher) (h : Bytes) (at_ : Nat) : Option (Nat × Nat) :=
@@ -693,29 +809,28 @@ def searchAt (d : BranchDispatcher) (h : Bytes) (at_ : Nat) : Option (Nat × Nat
 
 end BranchDispatcher
 
-/-- `IsBranchDispatchPattern` -/
-def isBranchDispatchPattern (re : Re) : Bool :=
-  if re.op ≠ .concat ∨ re.sub.length < 2 then false else
+/-- `branchDispatchAlternation` (`none` = `nil`): the alternation part of `\A(alternation)` -/
+def branchDispatchAlternation (re : Re) : Option Re :=
+  if re.op ≠ .concat then none else
   match re.sub with
-  | first :: rest =>
-    if first.op ≠ .beginLine ∧ first.op ≠ .beginText then false else
-    let isAlt (sub : Re) : Bool :=
-      let inner := if sub.op = .capture then (match sub.sub with | [x] => x | _ => sub) else sub
-      decide (inner.op = .alternate)
-    match rest.find? isAlt with
-    | some sub => (newBranchDispatcher sub).isSome
-    | none => false
-  | [] => false
+  | [a, alt] =>
+    if a.op ≠ .beginText then none else
+    if (unwrapCaptures alt).op ≠ .alternate then none else some alt
+  | _ => none
 
-/-- the `altPart` selection of meta/compile.go `buildCharClassSearchers` (first sub after the anchor that is an
-    alternation or ANY capture) followed by `NewBranchDispatcher`. -/
-def metaBranchDispatcher (re : Re) : Option BranchDispatcher :=
-  let altPart :=
-    if re.op = .concat ∧ re.sub.length ≥ 2 then
-      match (re.sub.drop 1).find? (fun s => decide (s.op = .alternate) || decide (s.op = .capture)) with
-      | some s => s
-      | none => re
-    else re
-  newBranchDispatcher altPart
+/-- `IsBranchDispatchPattern` -/
+def isBranchDispatchPattern (hasFold : Nat → Bool) (re : Re) : Bool :=
+  match branchDispatchAlternation re with
+  | some alt => (newBranchDispatcher hasFold alt).isSome
+  | none => false
+
+/-- what meta/compile.go `buildCharClassSearchers` builds for `UseBranchDispatch`: `altPart = re.Sub[1]` when
+    `re` is a two-element concatenation starting with `OpBeginText` (else `nil`, and `NewBranchDispatcher(nil) = nil`);
+    `IsExact()` is `d != nil`. -/
+def metaBranchDispatcher (hasFold : Nat → Bool) (re : Re) : Option BranchDispatcher :=
+  if re.op ≠ .concat then none else
+  match re.sub with
+  | [a, alt] => if a.op ≠ .beginText then none else newBranchDispatcher hasFold alt
+  | _ => none
 
 end Cx.Fast
